@@ -29,7 +29,8 @@ func findMatches(insts []bytecode.SearchInstruction, all bool, skip int, take in
 	lineNumber := 1
 	columnNumber := 1
 
-	if reader.Size() == 0 {
+	// an empty text or an empty command body (`find all ()`) cannot produce a non-empty match
+	if reader.Size() == 0 || len(insts) == 0 {
 		return Matches{}
 	}
 
